@@ -6,12 +6,19 @@ P=/verif/seeded/$S/patch.diff
 PIDS=${@:-${S%%-*}}
 cd /repo
 [ -z "$(git status --porcelain -- edzed)" ] || { echo "/repo not clean"; exit 2; }
-git apply "$P" || { echo "APPLY FAILED $S"; exit 2; }
-trap 'git -C /repo checkout -q -- .' EXIT
+restore() { git -C /repo reset -q --hard HEAD; }
+if ! git apply "$P" 2>/dev/null; then
+  # the seed was made against an earlier commit: fall back to a 3-way merge
+  if ! git apply -3 "$P" >/dev/null 2>&1; then
+    restore
+    echo "APPLY FAILED $S"; exit 2
+  fi
+fi
+trap restore EXIT
 cd /verif
 for pid in $PIDS; do
   out=$(timeout 1200 /venv/bin/python -m vt $pid --tier ${TIER:-quick} 2>&1); rc=$?
   echo "== seed $S check $pid rc=$rc"
-  echo "$out" | grep -E "VIOLATION|KNOWN|HARNESS|^\[" | head -${LINES_MAX:-6}
-  echo "$out" | grep -A1 VIOLATION | grep -v VIOLATION | head -3
+  echo "$out" | grep -E "VIOLATION|HARNESS|^\[" | head -${LINES_MAX:-6}
+  echo "$out" | grep -A1 VIOLATION | grep -v "VIOLATION\|^--" | head -3
 done
